@@ -377,7 +377,8 @@ func checkC13(c C13Case) Verdict {
 }
 
 func genC13(t *rapid.T) C13Case {
-	g := &gen.G{T: t, P: gen.Profile{HTMLChars: true, Directives: true, Common: true}}
+	custom := rapid.IntRange(0, 2).Draw(t, "custom") == 0
+	g := &gen.G{T: t, P: gen.Profile{HTMLChars: true, Directives: true, Common: true, Custom: custom, CustomAlias: custom}}
 	pc := gen.GenProgram(g, gen.ProgOpts{MaxTemplates: 6, MaxDepth: 3, MaxCmds: 4, ExprDepth: 2, PosWeight: 2, CallWeight: 14, MinTemplates: 3, AllData: true, MsgStress: 60, MsgWeight: 6, NoLog: true})
 	c := C13Case{Prog: pc, BreakFile: -1, TrickyKeys: rapid.IntRange(0, 2).Draw(t, "trickyKeys") == 0}
 	if rapid.IntRange(0, 7).Draw(t, "break") == 0 {
